@@ -10,6 +10,13 @@ option that gets hidden, and as content of the initial sdkconfig and of the file
 `empty_strings`, `zero_numbers`; the empty string is also in the typed alphabet of every other tree with a string
 option, the numeric zeros in the typed alphabets of all trees in the thorough tier).
 
+Choice-member dimension: besides a choice of unconditional members (`choice_select`), tree `choice_member_deps` has a choice
+whose members carry their own conditions (one member `depends on` a bool, one has a prompt conditional on another bool), so
+the member the user picked can be hidden and shown again while the choice stays visible.  The explored alphabets contain
+select-member (Space: select and leave, y: select and stay), toggle-the-dependency, reset (member / choice / dependency),
+save, quit+save and load; the initial and loadable files carry a visible non-default pick, a pick of the conditional-prompt
+member, and a pick that is hidden when the file is read.
+
 Oracles, in every reached state:
   (1) needs_save() == False  =>  bytes of the sdkconfig file == what `s` would write now
       (Kconfig.write_config with the header exactly as MenuConfigApp._do_save builds it)
@@ -36,7 +43,9 @@ RULE = (
     "show_all, conf_changed, exit status, file bytes). distinct_nontrivial counts distinct (pair, user state, needs_save, "
     "file bytes) reached by a non-empty history. Typed values include the empty string for every string option and (the "
     "dedicated tree zero_numbers in both tiers, all trees in the thorough tier) the zero of every numeric type; initial files include "
-    'tool-written and hand-written ones carrying `=""` / `=0` / `=0x0` / `=0.0` entries.'
+    'tool-written and hand-written ones carrying `=""` / `=0` / `=0x0` / `=0.0` entries. Choices: one with unconditional members, one '
+    "whose members have their own `depends on` / conditional prompt (picked member hidden and re-shown by toggling another option), "
+    "with initial / loadable files carrying visible, conditional and currently hidden picks."
 )
 ASSUMPTIONS = [
     "keys whose handler takes the same path as another offered key are left out (Enter vs Space and y/n vs Space on a plain bool, Escape vs Left "
@@ -49,6 +58,9 @@ ASSUMPTIONS = [
     "typed values per option type are a fixed small alphabet per tree (one or two ordinary values, the empty string for strings; "
     "zeros of int/hex/float in tree zero_numbers and, thorough tier only, in every tree); spellings that "
     "check_valid and set_value may judge differently (`-0`, `00`, blanks) belong to C17 and are not typed here",
+    "choice members with their own conditions: one tree (choice_member_deps), bool conditions only, one member per kind of condition "
+    "(`depends on`, `prompt ... if`), an explicit unconditional `default` member; a hand-edited file whose stale default HIDES an option "
+    "it also lists is not generated (nothing can be lost there; same literal-reading class as the known duplicate-entries finding)",
     "the conformance replay through textual.Pilot compares cur_menu, shown rows, list rows, highlighted row, sel_node_i, show_all, "
     "conf_changed, all values, needs_save(), top screen, exit status and file bytes after every key",
 ]
@@ -252,6 +264,35 @@ def trees() -> List[Dict[str, Any]]:
             frag="# CONFIG_B is not set\nCONFIG_F=0.0\n",
         )
     )
+    # K9: a choice whose members carry their own conditions -- MB `depends on F`, MC's prompt is conditional on G -- so that the
+    #     member the user picked can be hidden (and shown again) by toggling another option while the choice itself stays
+    #     visible: the selection falls back to the default member, the pick stays recorded.  Alphabets reach select-member /
+    #     toggle-the-dependency / save / reset / load in every order; initial and loadable files carry a pick that is
+    #     currently hidden (`partial`), a visible non-default pick (`alt`), a pick of the conditional-prompt member (`alt2`)
+    kids = [
+        Cfg("F", "bool", prompt="f", defaults=[(L("y"), None)]),
+        Cfg("G", "bool", prompt="g"),
+        Choice(
+            name="MODE",
+            prompt="m",
+            defaults=[("MA", None)],
+            children=[Cfg("MA", "bool", prompt="ma"), Cfg("MB", "bool", prompt="mb", depends=[S("F")]), Cfg("MC", "bool", prompt="mc", prompt_cond=S("G"))],
+        ),
+    ]
+    out.append(
+        dict(
+            name="choice_member_deps",
+            prog=Program(children=kids),
+            typed={},
+            alt=[("MB", "y")],
+            alt2=[("G", "y"), ("MC", "y")],
+            dup="CONFIG_MB=y\n",
+            dup_same="CONFIG_MA=y\n",
+            partial="# CONFIG_F is not set\nCONFIG_MB=y\n",
+            stale=("# CONFIG_G is not set", "CONFIG_G=y"),  # stale default that shows member MC, which the file does not mention
+            frag="# CONFIG_F is not set\nCONFIG_MB=y\nCONFIG_G=y\n",
+        )
+    )
     return out
 
 
@@ -286,7 +327,7 @@ def tool_text(files: Dict[str, str], renames: Optional[List[str]], ops: List[Tup
 def items(tier: str, seed: int):
     out = pairs(tier)
     # biggest searches first (the runner hands items out in list order)
-    weight = {"cond_prompt": 0, "zero_numbers": 0, "empty_strings": 0, "choice_select": 1, "menu_visible_if_menuconfig": 2, "warning_menu_depends_comment": 3, "set_promptless_float": 4}
+    weight = {"cond_prompt": 0, "zero_numbers": 0, "empty_strings": 0, "choice_member_deps": 1, "choice_select": 1, "menu_visible_if_menuconfig": 2, "warning_menu_depends_comment": 3, "set_promptless_float": 4}
     out.sort(key=lambda it: weight.get(it["tree"], 9))
     return out
 
